@@ -125,6 +125,17 @@ def hamming(s0, s1):
     return sum(c0 != c1 for c0, c1 in zip(s0, s1))
 
 
+def relative_orientation(phasing0, phasing1):
+    """
+    Position-wise comparison of two haplotype strings: "0" where they carry the same allele,
+    "1" otherwise. For binary strings, the switch encoding of the result differs from the
+    all-zero string exactly where the switch encodings of the two inputs differ, but it is
+    also meaningful for multi-allelic variants, e.g. '0120' and '0210' give '0110'.
+    """
+    assert len(phasing0) == len(phasing1)
+    return "".join("0" if p0 == p1 else "1" for p0, p1 in zip(phasing0, phasing1))
+
+
 def switch_encoding(phasing):
     """
     >>> switch_encoding('0001011')
@@ -296,8 +307,10 @@ def compare_block(phasing0, phasing1):
 
     if ploidy == 2:
         # conversion to int is allowed, as there should be no fractional error counts for diploid comparisons
-        switches = int(hamming(switch_encoding(phasing0[0]), switch_encoding(phasing1[0])))
-        switch_flips = compute_switch_flips(phasing0[0], phasing1[0])
+        orientation = relative_orientation(phasing0[0], phasing1[0])
+        no_errors = "0" * len(orientation)
+        switches = int(hamming(switch_encoding(orientation), switch_encoding(no_errors)))
+        switch_flips = compute_switch_flips(orientation, no_errors)
         minimum_hamming_distance = int(minimum_hamming_distance)
     else:
         switches = compute_switch_errors_poly(phasing0, phasing1, matching_pos)
@@ -337,8 +350,9 @@ class BedCreator:
         The annotation_string is added to each record.
         """
         assert len(phasing0) == len(phasing1) == len(positions)
-        switch_encoding0 = switch_encoding(phasing0)
-        switch_encoding1 = switch_encoding(phasing1)
+        orientation = relative_orientation(phasing0, phasing1)
+        switch_encoding0 = switch_encoding(orientation)
+        switch_encoding1 = switch_encoding("0" * len(orientation))
         for i, (sw0, sw1) in enumerate(zip(switch_encoding0, switch_encoding1)):
             if sw0 != sw1:
                 yield (self._chromosome, positions[i] + 1, positions[i + 1] + 1, self._annotation)
